@@ -825,6 +825,8 @@ enum Step {
     Spurious,
     Close,
     Open(String),
+    /// `didOpen` with an explicit version number (editors number every newly opened buffer from 1)
+    OpenAt(i32, String),
     /// willRenameFiles + move + didRenameFiles + the watcher's DELETED/CREATED pair; URI number
     Rename(usize),
 }
@@ -955,6 +957,49 @@ fn corpus() -> Vec<Fixed> {
             disk: Some(Some("PROGRAM Main\nEND_PROGRAM\n")),
             steps: vec![Step::Change(vec![rg(0, 12, 0, 12, "2")]), Step::Delete, Step::Change(vec![rg(0, 13, 0, 13, "3")])],
         },
+        // the editor's token base is older than the server's newest result: answers are dropped
+        // (cancelled requests), another view asks in between, deltas are chained (the shapes of
+        // `delta_step` in a fixed order) while one line after the other changes its tokens
+        Fixed {
+            name: "delta-dropped-answers",
+            text: "PROGRAM P\nVAR\n    a : INT;\n    b : INT;\nEND_VAR\na := 1;\nb := 2;\na := b;\nEND_PROGRAM\n",
+            disk: None,
+            steps: notes(vec![
+                vec![rg(5, 0, 5, 0, "(* c *) ")],
+                vec![rg(6, 5, 6, 6, "a + 1")],
+                vec![rg(7, 0, 8, 0, "")],
+                vec![rg(2, 0, 2, 0, "    c : INT;\n")],
+                vec![rg(6, 0, 6, 0, "c := a;\n")],
+                vec![rg(8, 0, 8, 0, "// 😀\n")],
+                vec![rg(6, 0, 7, 0, "")],
+                vec![rg(6, 7, 6, 7, "  ")],
+                vec![rg(3, 0, 4, 0, "")],
+                vec![rg(7, 5, 7, 10, "'x'")],
+                vec![rg(0, 0, 0, 0, "(* head *)\n")],
+                vec![rg(7, 0, 7, 0, "b := 3;\n")],
+            ]),
+        },
+        // a buffer is closed and the URI opened again with another text and the SAME version
+        // number (every newly opened buffer starts at 1; the file changed outside, or the buffer
+        // was closed without saving); the editor still names the result id it got for the URI
+        Fixed {
+            name: "reopen-restarts-version",
+            text: "PROGRAM P\nVAR x : INT; END_VAR\nx := missing_a;\nEND_PROGRAM\n",
+            disk: None,
+            steps: vec![
+                Step::Close,
+                Step::OpenAt(1, "PROGRAM P\nVAR x : INT; END_VAR\n\n\nx := 1;\nx := missing_b + missing_c;\nEND_PROGRAM\n".into()),
+                Step::Change(vec![rg(4, 5, 4, 6, "2")]),
+                Step::Close,
+                Step::OpenAt(2, "PROGRAM Q\nEND_PROGRAM\n".into()),
+                Step::Close,
+                Step::OpenAt(1, "PROGRAM P\nVAR x : INT; END_VAR\nx := missing_a;\nEND_PROGRAM\n".into()),
+                Step::Close,
+                Step::OpenAt(1, "x := ;\n".into()),
+            ],
+        },
+        // KNOWN FINDING C14-uri-scheme-shares-path-key: handled by `scheme_probe`
+        Fixed { name: "uri-scheme-probe", text: "", disk: None, steps: vec![] },
     ]
 }
 
@@ -1538,13 +1583,85 @@ fn attempt_case(bin: &str, seed: u64, n: u64, max_notes: u64) -> CaseOut {
         std::fs::create_dir_all(&base).expect("create workspace");
         base.canonicalize().expect("canonical workspace path")
     });
-    let res = session(bin, n, &plan, root.as_deref(), &mut r, &mut lines, &mut stats);
+    let res = if plan.tags.iter().any(|t| t == "corpus-uri-scheme-probe") {
+        scheme_probe(bin, &mut lines, &mut stats)
+    } else {
+        session(bin, n, &plan, root.as_deref(), &mut r, &mut lines, &mut stats)
+    };
     if let Some(root) = &root {
         let _ = std::fs::remove_dir_all(root);
     }
     let error = res.err();
     lines.push("end".into());
     CaseOut { lines, stats, error }
+}
+
+
+/// Replay of the known finding C14-uri-scheme-shares-path-key on the real server: two documents
+/// whose URIs differ in the scheme (or only in the query) but have the same absolute path are
+/// keyed by the path alone (`state/path.rs` `uri_to_path` -> `Url::to_file_path`, which does not
+/// look at the scheme), so they share one analysed text: the answers about the `file:` document
+/// are computed from the text of the other one.  The two texts have the same byte layout, so the
+/// finding is classified exactly: the answers for the `file:` URI equal those of a fresh server
+/// that got the OTHER text under that URI.
+fn scheme_probe(bin: &str, lines: &mut Vec<String>, stats: &mut Vec<String>) -> Result<(), String> {
+    const A: &str = "PROGRAM Alpha\nVAR x : INT; END_VAR\nx := 1;\nEND_PROGRAM\n";
+    const B: &str = "PROGRAM Bravo\nVAR y : INT; END_VAR\ny := q;\nEND_PROGRAM\n";
+    const FILE: &str = "file:///c14/probe.st";
+    let ask = |l: &mut lsp::Lsp, uri: &str| -> Result<Value, String> {
+        let td = json!({"textDocument": {"uri": uri}});
+        Ok(json!({
+            "symbols": canon(&l.request("textDocument/documentSymbol", td.clone())?),
+            "diagnostics": canon(&l.request("textDocument/diagnostic", td.clone())?),
+            "hover": canon(&l.request("textDocument/hover", json!({"textDocument": {"uri": uri}, "position": {"line": 2, "character": 0}}))?),
+        }))
+    };
+    let open = |l: &mut lsp::Lsp, uri: &str, text: &str| -> Result<(), String> {
+        l.notify(
+            "textDocument/didOpen",
+            json!({"textDocument": {"uri": uri, "languageId": "structured-text", "version": 1, "text": text}}),
+        )
+    };
+    let fresh = |text: &str| -> Result<Value, String> {
+        let mut f = lsp::Lsp::start(bin, true, None)?;
+        let res = open(&mut f, FILE, text).and_then(|_| ask(&mut f, FILE));
+        f.stop();
+        res
+    };
+    let want_a = fresh(A)?;
+    let want_b = fresh(B)?;
+    if want_a == want_b {
+        lines.push("# oracle uri-scheme FAIL the probe texts are not told apart by the answers".into());
+        return Ok(());
+    }
+    for (name, other) in [
+        ("git-scheme", "git:/c14/probe.st?ref=HEAD"),
+        ("notebook-cell", "vscode-notebook-cell:/c14/probe.st#W0sZmlsZQ%3D%3D"),
+        ("file-with-query", "file:///c14/probe.st?revision=2"),
+        ("untitled", "untitled:/c14/probe.st"),
+    ] {
+        let mut l = lsp::Lsp::start(bin, true, None)?;
+        let res = (|| -> Result<(Option<(String, i64)>, Option<(String, i64)>, Value), String> {
+            open(&mut l, FILE, A)?;
+            open(&mut l, other, B)?;
+            let ta = doc_state(&mut l, FILE)?;
+            let tb = doc_state(&mut l, other)?;
+            Ok((ta, tb, ask(&mut l, FILE)?))
+        })();
+        l.stop();
+        let (ta, tb, got) = res?;
+        stats.push("uri-scheme-probes:1".into());
+        if ta.as_ref().map(|x| x.0.as_str()) != Some(A) || tb.as_ref().map(|x| x.0.as_str()) != Some(B) {
+            lines.push(format!("# oracle uri-scheme FAIL {name}: the documents do not hold the texts they were opened with"));
+        } else if got == want_a {
+            lines.push(format!("# oracle uri-scheme ok {name}"));
+        } else if got == want_b {
+            lines.push(format!("# oracle uri-scheme KNOWN uri-scheme {name}: answers about {FILE} are computed from the text of {other}"));
+        } else {
+            lines.push(format!("# oracle uri-scheme FAIL {name}: got={} want={}", short(&got), short(&want_a)));
+        }
+    }
+    Ok(())
 }
 
 /// File names of a workspace case; the index is the URI number of the line protocol.  The case
@@ -1606,7 +1723,31 @@ struct Sess<'a> {
     pending: Vec<(usize, String)>,
     /// the `semanticTokens/full/delta` client: the result id and token array the editor holds
     delta: bool,
-    held: Option<(String, Vec<u32>)>,
+    held: Option<Held>,
+    /// token requests (full and delta) the server has answered for a document it tracks: the
+    /// model numbers its result ids the same way
+    tok_reqs: usize,
+    /// corpus cases walk through the shapes of `delta_step` in a fixed order
+    fixed_shapes: bool,
+    shape_no: usize,
+    /// the pull-diagnostics client: the result id the editor names and the items it shows
+    pull: bool,
+    diag_held: Option<(String, Value)>,
+}
+
+/// What the editor holds of a `semanticTokens` answer it consumed: the result id, the number of
+/// the request that produced it, the token array.
+#[derive(Clone)]
+struct Held {
+    id: String,
+    req: usize,
+    data: Vec<u32>,
+}
+
+/// One token request of a `delta_step`, in the order of the wire.
+enum TokEv {
+    Full(Vec<u32>),
+    Delta { base_req: usize, shown: String, applied: Option<Vec<u32>>, base_len: usize },
 }
 
 fn u32s(v: &Value) -> Vec<u32> {
@@ -1636,74 +1777,225 @@ impl Sess<'_> {
         self.lines.push(impl_line(&st, &ed));
         Ok(())
     }
-    /// The editor keeps its tokens up to date with `semanticTokens/full/delta`: ask for the delta
-    /// against what it holds, apply the edits, and compare with the server's full answer.
-    fn delta_step(&mut self) -> Result<(), String> {
-        if !self.delta {
+    /// `semanticTokens/full`, recorded as `tokf` by the caller (the server caches every answer,
+    /// whether the editor uses it or not).
+    fn tok_full(&mut self) -> Result<Option<Held>, String> {
+        let full = self.l.request("textDocument/semanticTokens/full", json!({"textDocument": {"uri": self.uri}}))?;
+        if full.get("data").is_none() {
+            return Ok(None);
+        }
+        let req = self.tok_reqs;
+        self.tok_reqs += 1;
+        let id = full.get("resultId").and_then(Value::as_str).unwrap_or("").to_string();
+        Ok(Some(Held { id, req, data: u32s(&full["data"]) }))
+    }
+    /// A full answer somebody else asked for (`ask_all`): the server cached it.
+    fn note_full(&mut self, ans: &Value) {
+        if ans.get("data").is_some() {
+            self.lines.push(format!("tokf {}", csv(&u32s(&ans["data"]))));
+            self.tok_reqs += 1;
+        }
+    }
+    /// The editor keeps its tokens up to date with `semanticTokens/full/delta`.  One refresh is a
+    /// short sequence of requests at the current text (`shape`): a delta against the result the
+    /// editor holds, whose answer it applies or DROPS (a request cancelled by the next key stroke:
+    /// the server has cached the result all the same), full requests of another view before or
+    /// after it, the full answer adopted as the new base or not, deltas chained without any full
+    /// request.  So the editor's base is often older than the newest result the server computed.
+    /// Oracle (the property's own statement): the edits of EVERY delta answer, applied to the
+    /// array of the result id the request named, give the server's full answer for the current
+    /// text (a full answer instead of edits is always fine).  Every request is also an op for the
+    /// model of the server's cache (`tokf`, `tokd`).
+    fn delta_step(&mut self, r: &mut Rng, force_verified: bool) -> Result<(), String> {
+        if !self.delta || self.server.is_none() {
             return Ok(());
         }
+        if self.held.is_none() {
+            if let Some(h) = self.tok_full()? {
+                self.lines.push(format!("tokf {}", csv(&h.data)));
+                self.held = Some(h);
+            }
+            return Ok(());
+        }
+        const CYCLE: [u64; 10] = [0, 10, 7, 13, 16, 17, 12, 15, 3, 8];
+        let shape = if force_verified {
+            0
+        } else if self.fixed_shapes {
+            self.shape_no += 1;
+            CYCLE[(self.shape_no - 1) % CYCLE.len()]
+        } else {
+            r.below(20)
+        };
+        // (a full request first, delta requests: is the answer consumed, a full request after,
+        //  the editor adopts that full answer)
+        let (full_first, deltas, full_after, adopt): (bool, &[bool], bool, bool) = match shape {
+            0..=6 => (false, &[true], true, true),     // lock step
+            7..=9 => (false, &[true], true, false),    // the later full answer belongs to another view
+            10 | 11 => (false, &[false], true, false), // the delta answer is dropped
+            12 => (false, &[false, true], true, false), // dropped, asked again against the same base
+            13 | 14 => (true, &[true], false, false),  // another view asked first
+            15 => (false, &[false], false, false),     // dropped, nothing else
+            _ => (false, &[true], false, false),       // delta chain without a full request
+        };
+        self.stats.push(format!("delta-shape-{}:1", match shape { 0..=6 => "lockstep", 7..=9 => "other-view-after", 10 | 11 => "dropped", 12 => "dropped-reasked", 13 | 14 => "other-view-first", 15 => "dropped-only", _ => "chain" }));
         let td = json!({"uri": self.uri});
-        if self.server.is_none() {
-            self.held = None;
-            return Ok(());
+        let mut evs: Vec<TokEv> = Vec::new();
+        let mut cur: Option<Vec<u32>> = None;
+        if full_first {
+            if let Some(h) = self.tok_full()? {
+                cur = Some(h.data.clone());
+                evs.push(TokEv::Full(h.data));
+            }
         }
-        if let Some((id, held)) = self.held.clone() {
+        for &consume in deltas {
+            let Some(base) = self.held.clone() else { break };
             let ans = self.l.request(
                 "textDocument/semanticTokens/full/delta",
-                json!({"textDocument": td, "previousResultId": id}),
+                json!({"textDocument": td, "previousResultId": base.id}),
             )?;
-            let mut now = held.clone();
-            let mut impl_edits: Option<Vec<String>> = None;
+            if ans.is_null() {
+                self.lines.push("# oracle tokens-delta FAIL null answer for a document the server tracks".into());
+                self.held = None;
+                return Ok(());
+            }
+            let req = self.tok_reqs;
+            self.tok_reqs += 1;
+            let mut applied = Some(base.data.clone());
+            let shown;
             if let Some(edits) = ans.get("edits").and_then(Value::as_array) {
-                let mut shown = Vec::new();
+                let mut parts = Vec::new();
                 for e in edits {
                     let start = e["start"].as_u64().unwrap_or(0) as usize;
                     let del = e["deleteCount"].as_u64().unwrap_or(0) as usize;
                     let data = u32s(&e["data"]);
-                    shown.push(format!("{start} {del} {}", csv(&data)));
-                    if start > now.len() || start + del > now.len() {
-                        self.lines.push(format!("# oracle tokens-delta FAIL edit start={start} deleteCount={del} outside the held array of {}", now.len()));
-                        self.held = None;
-                        return Ok(());
-                    }
-                    now.splice(start..start + del, data);
+                    parts.push(format!("{start} {del} {}", csv(&data)));
+                    applied = match applied {
+                        Some(mut now) if start <= now.len() && start + del <= now.len() => {
+                            now.splice(start..start + del, data);
+                            Some(now)
+                        }
+                        _ => None,
+                    };
                 }
-                impl_edits = Some(shown);
+                shown = if parts.is_empty() { "none".to_string() } else { parts.join(" ; ") };
                 self.stats.push("delta-answers-edits:1".into());
-            } else if ans.get("data").is_some() {
-                now = u32s(&ans["data"]);
+            } else {
+                applied = Some(u32s(&ans["data"]));
+                shown = "full".into();
                 self.stats.push("delta-answers-full:1".into());
-            } else {
-                self.held = None;
-                return Ok(());
             }
-            let full = self.l.request("textDocument/semanticTokens/full", json!({"textDocument": td}))?;
-            let want = u32s(&full["data"]);
-            if now == want {
-                self.lines.push(format!("# oracle tokens-delta ok n={}", want.len() / 5));
+            if consume {
+                let id = ans.get("resultId").and_then(Value::as_str).map(str::to_string);
+                self.held = match (id, &applied) {
+                    (Some(id), Some(now)) => Some(Held { id, req, data: now.clone() }),
+                    _ => None,
+                };
             } else {
-                self.lines.push(format!(
-                    "# oracle tokens-delta FAIL after-delta={} full={} held={}",
-                    now.len() / 5,
-                    want.len() / 5,
-                    held.len() / 5
-                ));
+                self.stats.push("delta-answers-dropped:1".into());
             }
-            // tie of `semantic_tokens_delta_edits` to the model
-            if let Some(shown) = impl_edits {
-                if held.len() <= 1500 && want.len() <= 1500 {
-                    self.lines.push(format!("delta {} {}", csv(&held), csv(&want)));
-                    self.lines.push(format!("impl {}", if shown.is_empty() { "none".to_string() } else { shown.join(" ; ") }));
-                    self.stats.push("delta-ops:1".into());
-                    if want.len() < held.len() {
-                        self.stats.push("delta-ops-shrinking:1".into());
+            evs.push(TokEv::Delta { base_req: base.req, shown, applied, base_len: base.data.len() });
+        }
+        if full_after {
+            if let Some(h) = self.tok_full()? {
+                cur = Some(h.data.clone());
+                evs.push(TokEv::Full(h.data.clone()));
+                if adopt {
+                    self.held = Some(h);
+                }
+            }
+        }
+        // without a full answer at this text the chain is judged by a later refresh (the last
+        // refresh of a session is always a verified one)
+        let verified = cur.is_some();
+        if !verified {
+            self.stats.push("delta-steps-unverified:1".into());
+            cur = evs.iter().rev().find_map(|e| match e {
+                TokEv::Delta { applied: Some(a), .. } => Some(a.clone()),
+                _ => None,
+            });
+        }
+        for e in evs {
+            match e {
+                TokEv::Full(data) => self.lines.push(format!("tokf {}", csv(&data))),
+                TokEv::Delta { base_req, shown, applied, base_len } => {
+                    match (&applied, &cur) {
+                        (None, _) => self.lines.push(format!(
+                            "# oracle tokens-delta FAIL an edit ({shown}) lies outside the {base_len} numbers of the result the request named (request #{base_req})"
+                        )),
+                        (Some(now), Some(want)) if verified && now != want => self.lines.push(format!(
+                            "# oracle tokens-delta FAIL base=request#{base_req} ({} tokens) answer=[{}] gives {} tokens, the full answer for the current text has {}",
+                            base_len / 5,
+                            if shown.len() > 120 { &shown[..120] } else { &shown },
+                            now.len() / 5,
+                            want.len() / 5
+                        )),
+                        (Some(_), Some(want)) if verified => self.lines.push(format!("# oracle tokens-delta ok n={}", want.len() / 5)),
+                        _ => {}
+                    }
+                    if let Some(want) = &cur {
+                        // tie of the cache protocol and of `semantic_tokens_delta_edits` to the model
+                        self.lines.push(format!("tokd {base_req} {}", csv(want)));
+                        self.lines.push(format!("impl {shown}"));
+                        self.stats.push("delta-ops:1".into());
                     }
                 }
             }
-            self.held = full.get("resultId").and_then(Value::as_str).map(|id| (id.to_string(), want));
-        } else {
-            let full = self.l.request("textDocument/semanticTokens/full", json!({"textDocument": td}))?;
-            self.held = full.get("resultId").and_then(Value::as_str).map(|id| (id.to_string(), u32s(&full["data"])));
+        }
+        Ok(())
+    }
+    /// The editor pulls diagnostics (`textDocument/diagnostic`) naming the result id it holds for
+    /// the URI — also across close / re-open — and keeps what it shows when the server answers
+    /// `unchanged`.  Oracle: what it shows then is what a pull that names no previous result
+    /// answers for the current text (and, at the end, what a fresh server answers).
+    fn diag_step(&mut self, r: &mut Rng, force: bool) -> Result<(), String> {
+        if !self.pull || self.server.is_none() || matches!(self.ed, EdState::Closed) {
+            return Ok(());
+        }
+        if !force && !r.chance(1, 2) {
+            return Ok(());
+        }
+        let anonymous = !force && r.chance(1, 8);
+        let prev = match &self.diag_held {
+            Some((id, _)) if !anonymous => Some(id.clone()),
+            _ => None,
+        };
+        let mut params = json!({"textDocument": {"uri": self.uri}});
+        if let Some(p) = &prev {
+            params["previousResultId"] = json!(p);
+        }
+        let ans = self.l.request("textDocument/diagnostic", params)?;
+        match ans.get("kind").and_then(Value::as_str) {
+            Some("unchanged") => {
+                self.stats.push("pull-unchanged:1".into());
+                let Some((_, shown)) = self.diag_held.clone().filter(|_| prev.is_some()) else {
+                    self.lines.push("# oracle pull-unchanged FAIL answered unchanged to a pull that names no previous result".into());
+                    return Ok(());
+                };
+                let reference =
+                    canon(&self.l.request("textDocument/diagnostic", json!({"textDocument": {"uri": self.uri}}))?);
+                if reference.get("items") == Some(&shown) {
+                    self.lines.push(format!("# oracle pull-unchanged ok n={}", shown.as_array().map(Vec::len).unwrap_or(0)));
+                } else {
+                    self.lines.push(format!(
+                        "# oracle pull-unchanged FAIL previousResultId={} answered unchanged; the editor keeps showing={} current-text={}",
+                        prev.unwrap_or_default(),
+                        short(&shown),
+                        short(reference.get("items").unwrap_or(&Value::Null))
+                    ));
+                }
+                if let (Some(id), Some(h)) = (ans.get("resultId").and_then(Value::as_str), self.diag_held.as_mut()) {
+                    h.0 = id.to_string();
+                }
+            }
+            Some("full") => {
+                self.stats.push("pull-full:1".into());
+                let items = canon(ans.get("items").unwrap_or(&Value::Null));
+                self.diag_held = ans.get("resultId").and_then(Value::as_str).map(|id| (id.to_string(), items));
+            }
+            _ => {
+                self.stats.push("pull-other:1".into());
+                self.diag_held = None;
+            }
         }
         Ok(())
     }
@@ -1890,7 +2182,9 @@ impl Sess<'_> {
         };
         self.l.notify("workspace/didRenameFiles", files)?;
         self.uri = new_uri.clone();
+        // a renamed document is a new document for the editor's per-URI bookkeeping
         self.held = None;
+        self.diag_held = None;
         self.lines.push(format!("ren {to} {}", disk_new.as_ref().map(|t| hex(t.as_bytes())).unwrap_or_else(|| "!".into())));
         self.stats.push(format!("ev-rename{}:1", if matches!(self.ed, EdState::Open(..)) { "-open" } else { "-closed" }));
         if to == 1 || to == 2 {
@@ -1972,10 +2266,11 @@ impl Sess<'_> {
         Ok(())
     }
     fn token_tie(&mut self, pull: bool, r: &mut Rng) -> Result<(), String> {
-        // asks for full tokens: what the delta client holds is stale afterwards
-        self.held = None;
+        // another view asks for full tokens: the server's newest result is no longer the one
+        // the delta client holds
         if let Some((t, _)) = self.server.clone() {
             let a = ask_all(&mut self.l, &self.uri, pull)?;
+            self.note_full(&a.tokens);
             token_ops(self.lines, self.stats, &t, &a, r);
         }
         Ok(())
@@ -2026,6 +2321,11 @@ fn session(
         pending: Vec::new(),
         delta: plan.delta,
         held: None,
+        tok_reqs: 0,
+        fixed_shapes: plan.fixed.is_some(),
+        shape_no: 0,
+        pull: plan.pull,
+        diag_held: None,
     };
     let result = drive(bin, plan, root_str.as_deref(), r, &mut s);
     s.l.shutdown();
@@ -2047,7 +2347,29 @@ fn drive(bin: &str, plan: &Plan, root: Option<&str>, r: &mut Rng, s: &mut Sess) 
         }
     }
     s.open(&plan.text, version)?;
-    s.delta_step()?;
+    s.delta_step(r, false)?;
+    s.diag_step(r, true)?;
+    // a preview: the buffer is closed again right away and the URI opened with another text (the
+    // file changed outside, or the preview showed another revision), numbered from the same
+    // version once more
+    if plan.fixed.is_none() && !plan.burst && r.chance(1, 8) {
+        s.close()?;
+        let mut kd: &'static str = "";
+        let text = match r.below(3) {
+            0 => format!("{}(* other revision {} *)\nzz := undefined_in_revision;\n", plan.text, uni1(r, plan.cat)),
+            _ => gen_text(r, plan.cat, plan.eol, &mut kd),
+        };
+        if s.ws.is_some() && r.bool() {
+            s.rewrite(&text, None)?;
+        }
+        if r.chance(1, 4) {
+            version = version.wrapping_add(1);
+        }
+        s.open(&text, version)?;
+        s.stats.push("ev-reopen-preview:1".into());
+        s.delta_step(r, false)?;
+        s.diag_step(r, true)?;
+    }
     let mut nontrivial = false;
     let mut astral = false;
     let mut after_undefined = 0;
@@ -2069,6 +2391,10 @@ fn drive(bin: &str, plan: &Plan, root: Option<&str>, r: &mut Rng, s: &mut Sess) 
                     version += 1;
                     s.open(t, version)?;
                 }
+                Step::OpenAt(v, t) => {
+                    version = *v;
+                    s.open(t, version)?;
+                }
                 Step::Rename(to) => {
                     s.rename(*to, true, true, r)?;
                     if let EdState::Open(_, v) = &s.ed {
@@ -2076,7 +2402,8 @@ fn drive(bin: &str, plan: &Plan, root: Option<&str>, r: &mut Rng, s: &mut Sess) 
                     }
                 }
             }
-            s.delta_step()?;
+            s.delta_step(r, false)?;
+            s.diag_step(r, true)?;
             continue;
         }
         // once the editor-side specification is undefined only the model tie is left: two more
@@ -2160,7 +2487,8 @@ fn drive(bin: &str, plan: &Plan, root: Option<&str>, r: &mut Rng, s: &mut Sess) 
             if r.chance(1, 3) {
                 s.token_tie(plan.pull, r)?;
             }
-            s.delta_step()?;
+            s.delta_step(r, false)?;
+            s.diag_step(r, false)?;
         }
         // close / re-open now and then
         if r.chance(1, if workspace { 15 } else { 40 }) {
@@ -2179,9 +2507,16 @@ fn drive(bin: &str, plan: &Plan, root: Option<&str>, r: &mut Rng, s: &mut Sess) 
                     (0, None) => s.gen_buf.text(),
                     _ => gen_text(r, plan.cat, plan.eol, &mut kd),
                 };
-                version = if r.bool() { 1 } else { version.wrapping_add(1) };
+                // every newly opened buffer is numbered from 1 again; or the old numbering goes on
+                version = match r.below(4) {
+                    0 | 1 => 1,
+                    2 => version,
+                    _ => version.wrapping_add(1),
+                };
                 s.open(&text, version)?;
                 s.stats.push("ev-reopen:1".into());
+                s.delta_step(r, false)?;
+                s.diag_step(r, true)?;
             } else {
                 s.stats.push("ev-change-after-close:1".into());
             }
@@ -2228,7 +2563,8 @@ fn drive(bin: &str, plan: &Plan, root: Option<&str>, r: &mut Rng, s: &mut Sess) 
         if quiet {
             continue;
         }
-        s.delta_step()?;
+        s.delta_step(r, false)?;
+        s.diag_step(r, false)?;
         // mid-session token tie now and then
         if r.chance(1, 8) {
             s.token_tie(plan.pull, r)?;
@@ -2256,7 +2592,12 @@ fn drive(bin: &str, plan: &Plan, root: Option<&str>, r: &mut Rng, s: &mut Sess) 
 
     // ---- end of history: answers of the incremental session ------------------------------------
     let Some((server_text, server_version)) = s.server.clone() else { return Ok(()) };
+    // the last refresh of the delta client is a verified one (it judges a chain of deltas that no
+    // full answer has confirmed yet), the last pull names the result the editor holds
+    s.delta_step(r, true)?;
+    s.diag_step(r, true)?;
     let inc = ask_all(&mut s.l, &s.uri, plan.pull)?;
+    s.note_full(&inc.tokens);
     token_ops(s.lines, s.stats, &server_text, &inc, r);
     // the reference text: the editor's buffer; the server's own text once the editor-side
     // specification is undefined or the editor has closed the document (then only the
@@ -2305,6 +2646,18 @@ fn drive(bin: &str, plan: &Plan, root: Option<&str>, r: &mut Rng, s: &mut Sess) 
     ];
     for ((name, x), (_, y)) in inc.extras.iter().zip(fresh.extras.iter()) {
         pairs.push((*name, x, y));
+    }
+    // what the pull-diagnostics client shows (it kept its items over every `unchanged` answer)
+    if let (Some((_, shown)), true) = (&s.diag_held, matches!(s.ed, EdState::Open(..))) {
+        if fresh.diagnostics.get("items") == Some(shown) {
+            s.lines.push("# oracle fresh-pull-client ok".into());
+        } else {
+            s.lines.push(format!(
+                "# oracle fresh-pull-client FAIL editor-shows={} fresh={}",
+                short(shown),
+                short(fresh.diagnostics.get("items").unwrap_or(&Value::Null))
+            ));
+        }
     }
     for (name, x, y) in pairs {
         if x == y {
